@@ -38,6 +38,7 @@ OBS_DESC = {
     # strings of different lengths (3..5 characters), alphabetical order != id order
     'oname': lambda o: 'o%s' % 'kbzrmaqe xwvutsyn'[int(o) % 17].strip() + str((int(o) * 7) % 10) + 'x' * (int(o) % 3),
     'sess': lambda o: 's%d' % (int(o) // 2 % 2),
+    'obig': lambda o: 100000 + int(o),      # six-digit ids: distinct values closer than 1e-5 relative
 }
 CH_DESC = {
     'chid': lambda c: int(c),
@@ -47,7 +48,12 @@ CH_DESC = {
 CHNAME_INV = {CH_DESC['chname'](c): c for c in range(4)}
 
 
+T_OFF = 250000.0   # a sample clock late in a recording: time stamps large relative to their spacing
+
+
 def code(o, c, tau):
+    if tau >= 1e5:          # a time label of the offset axis (the offset and all sums are exact in binary)
+        tau = tau - T_OFF
     return 100.0 * o + 10.0 * c + tau
 
 
@@ -55,7 +61,7 @@ def _cont(vals, kind):
     return np.array(vals) if kind == 'ndarray' else list(vals)
 
 
-def build(kind, oids, chids, tids=None, container='list'):
+def build(kind, oids, chids, tids=None, container='list', t_off=0.0):
     from rsatoolbox.data import Dataset, TemporalDataset
     od = {k: _cont([f(o) for o in oids], container) for k, f in OBS_DESC.items()}
     cd = {k: _cont([f(c) for c in chids], container) for k, f in CH_DESC.items()}
@@ -64,7 +70,7 @@ def build(kind, oids, chids, tids=None, container='list'):
         return Dataset(m, descriptors={'tag': 'sd'}, obs_descriptors=od, channel_descriptors=cd)
     m = np.array([[[code(o, c, TAU[t]) for t in tids] for c in chids] for o in oids], dtype=float)
     m = m.reshape(len(oids), len(chids), len(tids))
-    td = {'time': _cont([TAU[t] for t in tids], container)}
+    td = {'time': _cont([TAU[t] + t_off for t in tids], container)}
     return TemporalDataset(m, descriptors={'tag': 'sd'}, obs_descriptors=od, channel_descriptors=cd,
                            time_descriptors=td)
 
@@ -215,7 +221,7 @@ def enabled(obj, model):
     def one(n, m, ex):
         return [(n, m, ex)]
 
-    obs_by = [k for k in ('cond', 'sess', 'oname', 'oid') if k in model['obs']]
+    obs_by = [k for k in ('cond', 'sess', 'oname', 'obig', 'oid') if k in model['obs']]
     ch_by = [k for k in ('roi', 'chname', 'chid') if k in model['ch']]
     # --- split / subset by observation -------------------------------------------------------
     for by in obs_by:
@@ -523,6 +529,8 @@ def _initials():
             for n_ch in (1, 2):
                 for n_t in (1, 3):
                     out.append(('init:T,o%d,c%d,t%d,%s' % (n_obs, n_ch, n_t, cont), 'T', n_obs, n_ch, n_t, cont))
+    out.append(('init:T,o3,c2,t3,list,toff', 'T', 3, 2, 3, 'list'))
+    out.append(('init:T,o1,c1,t3,ndarray,toff', 'T', 1, 1, 3, 'ndarray'))
     out.append(('init:D,o40,c1,list', 'D', 40, 1, 0, 'list'))
     out.append(('init:T,o40,c1,t1,ndarray', 'T', 40, 1, 1, 'ndarray'))
     return out
@@ -531,7 +539,8 @@ def _initials():
 def _make_initial(name):
     for nm, kind, n_obs, n_ch, n_t, cont in _initials():
         if nm == name:
-            obj = build(kind, list(range(n_obs)), list(range(n_ch)), list(range(n_t)) if kind == 'T' else None, cont)
+            obj = build(kind, list(range(n_obs)), list(range(n_ch)), list(range(n_t)) if kind == 'T' else None, cont,
+                        t_off=T_OFF if nm.endswith(',toff') else 0.0)
             model = {'obs': tuple(OBS_DESC), 'ch': tuple(CH_DESC)}
             return (nm, obj, model)
     raise HarnessError('unknown initial state %r' % name)
